@@ -1069,7 +1069,8 @@ func (vx *Vaxis) handleSequence(seq ansi.Sequence) {
 				if len(vals) != 2 {
 					log.Error("error parsing XTGETTCAP: %s", string(seq.Data))
 				}
-				switch vals[0] {
+				// hex digits come in either case
+				switch strings.ToUpper(vals[0]) {
 				case hexEncode("Smulx"):
 					vx.PostEventBlocking(styledUnderlines{})
 				case hexEncode("RGB"):
@@ -1101,7 +1102,7 @@ func (vx *Vaxis) handleSequence(seq ansi.Sequence) {
 			}
 			switch seq.Intermediate[0] {
 			case '!':
-				if string(seq.Data) == hexEncode("~VTE") {
+				if strings.EqualFold(string(seq.Data), hexEncode("~VTE")) {
 					// VTE supports styled underlines but
 					// doesn't respond to XTGETTCAP
 					vx.PostEventBlocking(styledUnderlines{})
